@@ -995,6 +995,114 @@ fn run_budget(c: &BudgetCase, ctx: &mut CaseCtx) -> Result<(), String> {
 }
 
 // ---------------------------------------------------------------------------
+// long runs of one lexeme inside a well-formed statement (child process)
+// ---------------------------------------------------------------------------
+
+/// Lexemes that open no bracket: the pre-parse nesting budget does not count them, so a grammar
+/// rule that recurses once per occurrence is bounded only by the input length limit.
+const RUN_LEXEMES: &[&str] = &[
+    "-", "- ", "+", "+ ", "!", "! ", "NOT ", "not ", "~", ".", "a.", "?x.", "?x ", ":p ", "1 ", "1,", "\"s\" ", ", ", "| ", "|| ", "&& ", "= ", "== ", "!= ", "< ", "* ", "/ ",
+    "% ", "@", "#", ": ", "a: ", "//\n", "// x\n", "OPTIONAL ", "UNION ", "FILTER ", "WITH ", "AS ", "SET ", "UNSET ", "ADD ", "-1 ", "--", "- -", "..", "::", "?", ";", "\\", "'",
+];
+
+#[derive(Clone, Debug, Serialize, Deserialize)]
+pub struct RunCase {
+    pub origin: String,
+    pub toks: Vec<Tok>,
+    /// token boundary (0..=len) where the run is inserted
+    pub at: u16,
+    pub lexeme: u8,
+    /// 0 = 1500 repetitions, 1 = 20000, 2 = as many as fit under the input length limit
+    pub size: u8,
+    /// `at` is the boundary itself (enumerated cases), not a selector
+    #[serde(default)]
+    pub exact: bool,
+}
+
+/// Every token boundary x every lexeme, for the statements in which a grammar rule can recurse: the
+/// nine recursive constructs of `budget` (two levels deep), a few statements with unary operators,
+/// and - `all_fixtures` (thorough) - every tokenised fixture statement.
+fn run_cases(fix: &[(usize, Vec<Tok>)], all_fixtures: bool) -> Vec<RunCase> {
+    let mut hosts: Vec<(String, Vec<Tok>)> = vec![];
+    for shape in ["valid_json_array", "valid_json_object", "valid_kml_value", "valid_kql_tuple", "valid_filter_parens", "valid_blocks", "valid_match_objects", "valid_epistemic_objects", "valid_update_expr"] {
+        let (text, _, _) = budget_text(&BudgetCase { shape: shape.into(), n: 2, bracket: "".into() });
+        if let Some(t) = tok::lex(&text) {
+            hosts.push((format!("{shape}(2)"), t));
+        }
+    }
+    for (i, text) in [
+        "FIND(?x) WHERE { ?x {type: \"T\"} FILTER(?x.attributes.n > -1 && !(?x.attributes.m == 2)) } ORDER BY ?x.name DESC LIMIT 3",
+        "UPDATE ?a SET ATTRIBUTES {n: ADD(-1, 2), m: MUL(2, -3), c: CLAMP(1, -5, 5), d: COALESCE(-1, 0)} WHERE { ?a {type: \"T\", name: \"n\"} }",
+        "FIND(COUNT(?x), SUM(?x.attributes.n)) WHERE { ?x {type: \"T\"} NOT { (?x, \"p\", ?y) } OPTIONAL { (?x, \"q\", ?z) } }",
+    ]
+    .iter()
+    .enumerate()
+    {
+        if let Some(t) = tok::lex(text) {
+            hosts.push((format!("unary#{i}"), t));
+        }
+    }
+    for (i, t) in fix {
+        if all_fixtures {
+            hosts.push((format!("fixture#{i}"), t.clone()));
+        }
+    }
+    let mut v = vec![];
+    for (origin, toks) in hosts {
+        for at in 0..=toks.len() {
+            for lexeme in 0..RUN_LEXEMES.len() {
+                v.push(RunCase { origin: origin.clone(), toks: toks.clone(), at: at as u16, lexeme: lexeme as u8, size: 2, exact: true });
+            }
+        }
+    }
+    v
+}
+
+fn run_strategy(fix: Arc<Vec<(usize, Vec<Tok>)>>) -> impl Strategy<Value = RunCase> {
+    (any::<u16>(), prop::collection::vec(any::<u16>(), 4..160), any::<u16>(), 0u8..RUN_LEXEMES.len() as u8, prop_oneof![2 => Just(0u8), 2 => Just(1u8), 3 => Just(2u8)]).prop_map(
+        move |(sel, tape, at, lexeme, size)| {
+            let (origin, toks) = if sel % 3 == 0 && !fix.is_empty() {
+                let (i, t) = &fix[vf_core::pick_idx(sel, fix.len())];
+                (format!("fixture#{i}"), t.clone())
+            } else {
+                let s = gen_::sentence(&tape);
+                (s.family, s.toks)
+            };
+            RunCase { origin, toks, at, lexeme, size, exact: false }
+        },
+    )
+}
+
+fn run_token_run(c: &RunCase, ctx: &mut CaseCtx) -> Result<(), String> {
+    let at = if c.exact { (c.at as usize).min(c.toks.len()) } else { vf_core::pick_idx(c.at, c.toks.len() + 1) };
+    let head = tok::render(&c.toks[..at], PLAIN);
+    let tail = tok::render(&c.toks[at..], PLAIN);
+    let lex = RUN_LEXEMES[c.lexeme as usize % RUN_LEXEMES.len()];
+    let room = MAX_KIP_INPUT_LEN.saturating_sub(head.len() + tail.len() + 2);
+    let reps = match c.size {
+        0 => 1500,
+        1 => 20_000,
+        _ => usize::MAX,
+    }
+    .min(room / lex.len());
+    let text = format!("{head} {}{tail}", lex.repeat(reps));
+    ctx.label(format!("lexeme:{lex:?}"));
+    ctx.label(format!("size:{}", c.size));
+    let (line, isolated) = probe::in_child(&text).map_err(|e| {
+        format!("{e} - {reps} repetitions of {lex:?} inserted at token boundary {at} of [{}] ({} bytes in all, within the input limit; no bracket is opened, so the nesting budget cannot refuse it)", tok::render(&c.toks, PLAIN).chars().take(300).collect::<String>(), text.len())
+    })?;
+    if !isolated {
+        ctx.count("probe_child_unavailable_parsed_in_process", 1);
+    }
+    let accepted = line.split(' ').filter_map(|kv| kv.split_once('=')).any(|(_, o)| o == "ok");
+    ctx.label(if accepted { "answered:accepted" } else { "answered:refused" });
+    ctx.count("bytes_parsed", text.len() as u64);
+    // non-trivial: the run sits INSIDE the statement (something was parsed before it and something follows)
+    ctx.nontrivial = at > 0 && at < c.toks.len() && reps >= 1000;
+    Ok(())
+}
+
+// ---------------------------------------------------------------------------
 // the KIP-JSON dialect
 // ---------------------------------------------------------------------------
 
@@ -1261,6 +1369,27 @@ pub fn run(r: &mut Runner) {
             (200_000, 6_000_000),
             move || g2_strategy(lexed.clone()),
             |c: &G2Case, ctx: &mut CaseCtx| on_small_stack(|| run_g2(c, ctx)).and_then(|r| r),
+        );
+    }
+
+    {
+        let all = r.tier.pick(false, true);
+        r.sub_enum(
+            "token_runs_every_boundary",
+            "EVERY token boundary x EVERY one of the 49 bracket-free lexemes (as many repetitions as fit under the input length limit) for the statements in which a grammar rule can recurse: the nine recursive constructs of `budget` two levels deep, three statements with unary operators / update functions / aggregates (thorough: also every tokenised fixture statement); parsed by all five entry points in a child process, same oracle as `token_runs`. Non-trivial = the run sits inside the statement",
+            false,
+            run_cases(&lexed, all),
+            run_token_run,
+        );
+    }
+    {
+        let lexed = lexed.clone();
+        r.sub(
+            "token_runs",
+            "a G1 sentence or a tokenised fixture statement with a run of 1500 / 20000 / as-many-as-fit-under-256-KiB repetitions of one bracket-free lexeme (49 lexemes: signs, NOT, dots, variables, parameters, literals, separators, operators, comment lines, clause keywords, stray characters) inserted at a generated token boundary, parsed by all five entry points in a CHILD process: the answer must be a result (accepted or refused), never a dead process - a rule that recurses once per lexeme is bounded by nothing but the length limit, because the nesting budget counts brackets only. Non-trivial = the run (>= 1000 repetitions) sits inside the statement",
+            (2_400, 80_000),
+            move || run_strategy(lexed.clone()),
+            run_token_run,
         );
     }
 
